@@ -12,6 +12,11 @@ from the working tree and writes lean/FordModel/Generated/C12.lean.
   outDirs             the directory list created by writeout
   nodeIterSites       every loop over a node collection in graphs.py with "is it sorted(...)"
   serialGraphs / parallelGraphs   (collection, graph attributes) pairs of the two branches of output_graphs
+  incDirsOrdered      does FortranReader keep / probe the include directories in the order given?  (variant switch)
+  inheritedIterOrdered  do the loops of FortranType.correlate that collect inherited components / bindings walk
+                      the parent's lists (source order), or a hash-ordered collection?           (variant switch)
+  hashIterSites       every place in ford/*.py where a syntactically hash-ordered collection is turned into a
+                      sequence (for / comprehension / list() / join ...), with "goes through sorted()"
 
 A construct that cannot be found raises (= tie broken), it is never silently skipped.
 """
@@ -332,6 +337,296 @@ def uses_is_set():
     return "self.uses = set([m[0] for m in self.uses])" in src
 
 
+
+# ---------------------------------------------------------------- order class of an expression
+
+HASH_OPS = (ast.BitOr, ast.BitAnd, ast.Sub, ast.BitXor)
+# calls that hand their argument's order on
+PASS_CALLS = {"list", "tuple", "reversed", "enumerate", "iter", "filter", "map", "chain", "ProgressBar", "zip",
+              "copy", "deepcopy"}
+# consumers for which the order of the argument does not matter
+INSENSITIVE_CALLS = {"sorted", "set", "frozenset", "len", "any", "all", "sum", "min", "max", "bool", "dict",
+                     "Counter", "toposort_flatten", "toposort", "isinstance"}
+SET_METHODS = {"union", "intersection", "difference", "symmetric_difference"}
+SEQUENCING_CALLS = {"list", "tuple", "enumerate", "map", "filter", "zip", "chain", "iter", "next", "reversed"}
+
+
+def _is_dict_view(n) -> bool:
+    return isinstance(n, ast.Call) and isinstance(n.func, ast.Attribute) and n.func.attr in ("keys", "items") \
+        and not n.args
+
+
+def _is_set_annotation(a) -> bool:
+    s = ast.unparse(a) if a is not None else ""
+    return s.startswith(("Set[", "set[", "FrozenSet[", "frozenset[", "typing.Set[", "AbstractSet[")) \
+        or s in ("set", "Set", "frozenset")
+
+
+def _call_name(n):
+    f = n.func
+    if isinstance(f, ast.Name):
+        return f.id, False
+    if isinstance(f, ast.Attribute):
+        return f.attr, True
+    return None, False
+
+
+class OrderClass:
+    """`cls(expr)` is "hash" when the expression is *syntactically* a hash-ordered collection or a sequence made
+    from one without sorting (set()/frozenset(), set literal / comprehension, a set operator with such an operand
+    or with a dict view, a set method, list()/tuple()/... of those, a local name or an attribute of the same
+    file that is bound to one), "sorted" for sorted(...), else "ordered" (includes everything unknown)."""
+
+    def __init__(self, set_attrs, env):
+        self.set_attrs = set_attrs
+        self.env = env
+
+    def cls(self, n) -> str:
+        if isinstance(n, ast.NamedExpr):
+            return self.cls(n.value)
+        if isinstance(n, (ast.Set, ast.SetComp)):
+            return "hash"
+        if isinstance(n, ast.Call):
+            name, is_method = _call_name(n)
+            if name == "sorted" and not is_method:
+                return "sorted"
+            if name in ("set", "frozenset") and not is_method:
+                return "hash"
+            if is_method and name in SET_METHODS:
+                return "hash"
+            if is_method and name == "copy":
+                return self.cls(n.func.value)
+            if name in PASS_CALLS and not is_method:
+                return "hash" if any(self.cls(a) == "hash" for a in n.args) else "ordered"
+            if name == "getattr" and len(n.args) >= 2 and isinstance(n.args[1], ast.Constant):
+                return "hash" if n.args[1].value in self.set_attrs else "ordered"
+            return "ordered"
+        if isinstance(n, ast.BinOp):
+            l, r = self.cls(n.left), self.cls(n.right)
+            if isinstance(n.op, HASH_OPS) and ("hash" in (l, r) or _is_dict_view(n.left) or _is_dict_view(n.right)):
+                return "hash"
+            if isinstance(n.op, ast.Add) and "hash" in (l, r):
+                return "hash"
+            return "ordered"
+        if isinstance(n, ast.BoolOp):
+            return "hash" if any(self.cls(v) == "hash" for v in n.values) else "ordered"
+        if isinstance(n, ast.IfExp):
+            return "hash" if "hash" in (self.cls(n.body), self.cls(n.orelse)) else "ordered"
+        if isinstance(n, ast.Name):
+            return self.env.get(n.id, "ordered")
+        if isinstance(n, ast.Attribute):
+            return "hash" if n.attr in self.set_attrs else "ordered"
+        if isinstance(n, (ast.ListComp, ast.GeneratorExp)):
+            return "hash" if any(self.cls(g.iter) == "hash" for g in n.generators) else "ordered"
+        return "ordered"
+
+
+def _file_set_attrs(tree) -> set:
+    """names of attributes that are bound to a hash-class value (or annotated as a set) somewhere in the file"""
+    out = set()
+    c0 = OrderClass(set(), {})
+    for n in ast.walk(tree):
+        if isinstance(n, ast.Assign):
+            for t in n.targets:
+                if isinstance(t, ast.Attribute) and c0.cls(n.value) == "hash":
+                    out.add(t.attr)
+        if isinstance(n, ast.AnnAssign) and isinstance(n.target, ast.Attribute):
+            if _is_set_annotation(n.annotation) or (n.value is not None and c0.cls(n.value) == "hash"):
+                out.add(n.target.attr)
+    return out
+
+
+def _local_env(fn, set_attrs) -> dict:
+    env: dict = {}
+    c = OrderClass(set_attrs, env)
+    for _ in range(3):  # chains a = set(..); b = a - c; d = list(b)
+        for n in ast.walk(fn):
+            if isinstance(n, ast.Assign) and len(n.targets) == 1 and isinstance(n.targets[0], ast.Name):
+                if c.cls(n.value) == "hash":
+                    env[n.targets[0].id] = "hash"
+            if isinstance(n, ast.AnnAssign) and isinstance(n.target, ast.Name):
+                if _is_set_annotation(n.annotation) or (n.value is not None and c.cls(n.value) == "hash"):
+                    env[n.target.id] = "hash"
+    return env
+
+
+def _classifier_for(rel, cls_name, fn_name):
+    tree = ast.parse(_src(rel))
+    fn = _method(tree, cls_name, fn_name)
+    sa = _file_set_attrs(tree)
+    return fn, OrderClass(sa, _local_env(fn, sa))
+
+
+def inc_dirs_ordered():
+    """FortranReader keeps the include directories (`self.inc_dirs = ...` in __init__) and probes them
+    (`for b in [dirname] + self.inc_dirs` in include()) in the order given <=> neither expression is hash-ordered.
+    `sorted(...)` would be deterministic but not the configured order: not the modelled shape, raise."""
+    fn, c = _classifier_for("ford/reader.py", "FortranReader", "__init__")
+    kept = None
+    for n in ast.walk(fn):
+        if isinstance(n, (ast.Assign, ast.AnnAssign)):
+            tgts = n.targets if isinstance(n, ast.Assign) else [n.target]
+            for t in tgts:
+                if isinstance(t, ast.Attribute) and t.attr == "inc_dirs" and isinstance(t.value, ast.Name) \
+                        and t.value.id == "self":
+                    kept = n.value
+    if kept is None:
+        raise LookupError("FortranReader.__init__: assignment to self.inc_dirs not found")
+    if "inc_dirs" not in ast.unparse(kept):
+        raise LookupError(f"FortranReader.__init__: self.inc_dirs = {ast.unparse(kept)} does not come from inc_dirs")
+    fn2, c2 = _classifier_for("ford/reader.py", "FortranReader", "include")
+    probe = None
+    for n in ast.walk(fn2):
+        if isinstance(n, ast.For) and "inc_dirs" in ast.unparse(n.iter):
+            probe = n
+    if probe is None:
+        raise LookupError("FortranReader.include: loop over the include directories not found")
+    it = probe.iter
+    if not (isinstance(it, ast.BinOp) and isinstance(it.op, ast.Add) and isinstance(it.left, ast.List)
+            and "dirname(self.name)" in ast.unparse(it.left)) or not probe.orelse \
+            or not any(isinstance(x, ast.Break) for x in ast.walk(probe)):
+        raise LookupError("FortranReader.include: no longer `for b in [dirname(self.name)] + <dirs>: ... break ... else`")
+    classes = [c.cls(kept), c2.cls(it)]
+    if "sorted" in classes:
+        raise LookupError("FortranReader: include directories are sorted, not the modelled shape")
+    # the nested reader for the included file is given self.inc_dirs again
+    if "inc_dirs=self.inc_dirs" not in ast.unparse(fn2):
+        raise LookupError("FortranReader.include: nested reader is not given inc_dirs=self.inc_dirs")
+    # ... and the list handed to the reader is the option value itself
+    sf = ast.unparse(_method(ast.parse(_src("ford/sourceform.py")), "FortranSourceFile", "__init__"))
+    if "settings.include" not in sf:
+        raise LookupError("FortranSourceFile.__init__: settings.include is not handed to FortranReader")
+    return "hash" not in classes, ast.unparse(kept)
+
+
+def inherited_iter_ordered():
+    """FortranType.correlate: every loop / comprehension that feeds `inherited` (components, then bindings) or
+    `inherited_generic` walks an ordered collection <=> none of their iterables is hash-ordered."""
+    fn, c = _classifier_for("ford/sourceform.py", "FortranType", "correlate")
+    feeds = []
+
+    def feeding(body_nodes):
+        for b in body_nodes:
+            for x in ast.walk(b):
+                if isinstance(x, ast.Call) and isinstance(x.func, ast.Attribute) and x.func.attr in ("append", "extend", "insert") \
+                        and isinstance(x.func.value, ast.Name) and x.func.value.id.startswith("inherited"):
+                    return True
+        return False
+
+    for n in ast.walk(fn):
+        if isinstance(n, ast.For) and feeding(n.body):
+            feeds.append(n.iter)
+        if isinstance(n, ast.Assign) and len(n.targets) == 1 and isinstance(n.targets[0], ast.Name) \
+                and n.targets[0].id.startswith("inherited"):
+            if isinstance(n.value, (ast.ListComp, ast.GeneratorExp)):
+                feeds += [g.iter for g in n.value.generators]
+            elif isinstance(n.value, ast.List) and not n.value.elts:
+                pass
+            else:
+                feeds.append(n.value)
+    if len(feeds) < 2:
+        raise LookupError("FortranType.correlate: the loops collecting inherited components / bindings were not found")
+    src = ast.unparse(fn)
+    if "self.boundprocs = inherited + self.boundprocs" not in src or "self.variables = inherited + self.variables" not in src:
+        raise LookupError("FortranType.correlate: `inherited + self.boundprocs` / `inherited + self.variables` not found")
+    classes = [c.cls(f) for f in feeds]
+    if "sorted" in classes:
+        raise LookupError("FortranType.correlate: inherited entities are sorted, not the modelled shape")
+    return "hash" not in classes, [ast.unparse(f) for f in feeds]
+
+
+def hash_iter_sites():
+    """[(site, goes through sorted())] over ford/*.py; a site is `<file>:<Class.function>: <consumer> <expression>`"""
+    out: dict = {}
+    files = sorted((common.REPO / "ford").glob("*.py"))
+    if not files:
+        raise LookupError("no ford/*.py")
+    for path in files:
+        tree = ast.parse(path.read_text())
+        set_attrs = _file_set_attrs(tree)
+
+        def visit_fn(fn, qual):
+            c = OrderClass(set_attrs, _local_env(fn, set_attrs))
+            parents = {}
+            for p in ast.walk(fn):
+                for ch in ast.iter_child_nodes(p):
+                    parents[ch] = p
+
+            def insensitive(node) -> bool:
+                """is `node` directly consumed by something for which order does not matter?"""
+                p = parents.get(node)
+                while isinstance(p, ast.NamedExpr):
+                    node, p = p, parents.get(p)
+                if isinstance(p, ast.Call):
+                    name, is_method = _call_name(p)
+                    if name in INSENSITIVE_CALLS and not is_method and node in p.args:
+                        return True
+                    if is_method and name in (SET_METHODS | {"update", "issubset", "issuperset", "isdisjoint"}) \
+                            and node in p.args and c.cls(p.func.value) == "hash":
+                        return True
+                if isinstance(p, ast.Compare):
+                    return True
+                return False
+
+            def note(kind, e):
+                k = c.cls(e)
+                if k == "hash":
+                    key = f"{path.name}:{qual}: {kind} {ast.unparse(e)}"
+                    out[key] = False
+                elif k == "sorted" and isinstance(e, ast.Call) and e.args and c.cls(e.args[0]) == "hash":
+                    key = f"{path.name}:{qual}: {kind} {ast.unparse(e.args[0])}"
+                    out.setdefault(key, True)
+
+            for n in ast.walk(fn):
+                if isinstance(n, (ast.FunctionDef, ast.AsyncFunctionDef, ast.Lambda)) and n is not fn:
+                    continue
+                if isinstance(n, (ast.For, ast.AsyncFor)):
+                    note("for", strip_wrappers(n.iter) if c.cls(n.iter) != "hash" else n.iter)
+                elif isinstance(n, (ast.ListComp, ast.GeneratorExp, ast.DictComp)):
+                    if not insensitive(n):
+                        for g in n.generators:
+                            note("comprehension", g.iter)
+                elif isinstance(n, ast.Call):
+                    name, is_method = _call_name(n)
+                    if not is_method and name in SEQUENCING_CALLS and not insensitive(n):
+                        for a in n.args:
+                            if not isinstance(a, (ast.ListComp, ast.GeneratorExp)):
+                                note(name + "()", a)
+                    if is_method and name in ("join", "extend"):
+                        for a in n.args:
+                            if not isinstance(a, (ast.ListComp, ast.GeneratorExp)):
+                                note("." + name + "()", a)
+                    if is_method and name == "pop" and not n.args and c.cls(n.func.value) == "hash":
+                        out[f"{path.name}:{qual}: pop() {ast.unparse(n.func.value)}"] = False
+                elif isinstance(n, ast.Starred):
+                    note("*", n.value)
+
+        def walk_defs(node, prefix):
+            for ch in ast.iter_child_nodes(node):
+                if isinstance(ch, (ast.FunctionDef, ast.AsyncFunctionDef)):
+                    visit_fn(ch, prefix + ch.name)
+                    walk_defs(ch, prefix + ch.name + ".")
+                elif isinstance(ch, ast.ClassDef):
+                    walk_defs(ch, prefix + ch.name + ".")
+
+        walk_defs(tree, "")
+    if not any(v for v in out.values()):
+        raise LookupError("hash_iter_sites: not a single sorted(...) over a set found - the scanner no longer understands the sources")
+    return sorted(out.items())
+
+
+def lean_chars(s: str) -> str:
+    """char-list literal (fast for `decide`, unlike "..".toList)"""
+    def ch(c):
+        if c == "'":
+            return "'\\''"
+        if c == "\\":
+            return "'\\\\'"
+        if ord(c) < 32 or ord(c) > 126:
+            return f"Char.ofNat {ord(c)}"
+        return f"'{c}'"
+    return "[" + ", ".join(ch(c) for c in s) + "]"
+
 # ---------------------------------------------------------------- emit
 
 
@@ -347,6 +642,9 @@ def generate() -> dict:
     serial, par = output_graphs_tables()
     usorted = uses_iter_sorted()
     uset = uses_is_set()
+    inc_ordered, inc_src = inc_dirs_ordered()
+    inh_ordered, inh_src = inherited_iter_ordered()
+    hsites = hash_iter_sites()
 
     def pairs(xs):
         return lean_list(f"({lean_str(a)}, {lean_str(b)})" for a, b in xs)
@@ -386,6 +684,14 @@ def generate() -> dict:
          "def serialGraphs : List (Str × List Str) := " + gtab(serial),
          "", "/-- output_graphs, process_map branch -/",
          "def parallelGraphs : List (Str × List Str) := " + gtab(par),
+         "", f"/-- FortranReader: `self.inc_dirs = {inc_src}` and the probing loop of include() keep the order given -/",
+         f"def incDirsOrdered : Bool := {'true' if inc_ordered else 'false'}",
+         "", "/-- FortranType.correlate: the loops that collect inherited components / bindings iterate "
+         + "; ".join(inh_src).replace("-/", "- /") + " : all in source order? -/",
+         f"def inheritedIterOrdered : Bool := {'true' if inh_ordered else 'false'}",
+         "", "/-- ford/*.py: syntactically hash-ordered collections turned into a sequence: (site, goes through sorted()) -/",
+         "def hashIterSites : List (Str × Bool) := "
+         + lean_list(f"({lean_chars(s)}, {'true' if b else 'false'})" for s, b in hsites),
          "", "end Ford.Gen.C12", ""]
     text = "\n".join(L)
     common.write_if_changed(common.LEAN / "FordModel" / "Generated" / "C12.lean", text)
@@ -393,6 +699,8 @@ def generate() -> dict:
             "unitChainOrder": chain_order, "pageListOrder": pages, "fileIterSorted": fsorted, "countKeyLower": count_lower,
             "usesIterSorted": usorted, "usesIsSet": uset, "writeoutSteps": steps, "outDirs": dirs,
             "nodeIterSites": sites, "serialGraphs": serial, "parallelGraphs": par,
+            "incDirsOrdered": inc_ordered, "inheritedIterOrdered": inh_ordered, "hashIterSites": hsites,
+            "inheritedIterables": inh_src, "incDirsKept": inc_src,
             "find_all_files_returns": find_all_files_returns_set()}
 
 
